@@ -62,6 +62,10 @@ def check_run(spec, r):
         o = sub[e['ord']]
         sym = o['sym']
         stats['fills'] += 1
+        # the time of a fill is the end of the one-minute candle that was being matched (read from the store when execute() was entered)
+        if e.get('minute_ts') is not None and o['type'] != 'MARKET' and end['executed_at'] != e['minute_ts'] + 60_000:
+            vios.append((f'C06:sim={sim}:fill-time-differs-from-minute-being-matched', f"order {e['ord']} ({sym}): executed_at {end['executed_at']}, minute being matched started at {e['minute_ts']}"))
+            end = dict(end, executed_at=e['minute_ts'] + 60_000)
         q = D(o['qty'])
         pos = size.get(sym, Decimal(0))
         ro = o['reduce_only']
